@@ -490,6 +490,17 @@ func c10GhostParams(a *app.Canto, ctx sdk.Context, cur c10Params) {
 	GhostRuns++
 }
 
+// checkParams: what the keeper reports as the csr parameters must be the last update this history COMMITTED (the model is
+// fed the parameters the keeper reports, so a value left behind by a discarded branch would otherwise go unnoticed)
+func (lv *c10Live) checkParams(e *Env, c int) {
+	got := lv.f.a.CSRKeeper.GetParams(lv.ctx)
+	want := c10ParamsOf(lv.params)
+	if got.EnableCsr != want.EnableCsr || !got.CsrShares.Equal(want.CsrShares) {
+		e.Stats.ImplFailures = append(e.Stats.ImplFailures, ImplFailure{Case: c, Step: len(lv.steps), Monitor: "csr-params-differ-from-last-committed-update",
+			Detail: fmt.Sprintf("keeper reports share %s enable %v, the last committed update was share %s enable %v", got.CsrShares, got.EnableCsr, want.CsrShares, want.EnableCsr)})
+	}
+}
+
 // c10Start builds the initial state of a case in a branch of the fixture context.
 func c10Start(e *Env, f *c10Fix, kase *c10Case) *c10Live {
 	ctx, _ := f.ctx.CacheContext()
@@ -541,6 +552,7 @@ func (lv *c10Live) exec(e *Env, c int, op c10Op) bool {
 		changed = true
 	}
 	c10GhostParams(f.a, lv.ctx, lv.params)
+	lv.checkParams(e, c)
 	for _, s := range op.CodeOn {
 		c10SetCode(f, lv.ctx, common.HexToAddress(s), true)
 		changed = true
